@@ -8,6 +8,20 @@ ROOT = os.path.dirname(HERE)
 
 ALL = [f"C{i:02d}" for i in range(1, 21)]
 
+CH = "bounded symbolic execution of the real Python code (CrossHair 0.0.110, z3 deciding every branch; verdict = all paths exhausted within the stated bounds or a counterexample replayed on the real code)"
+TECHNIQUE = {
+    "C01": CH + "; plus z3 regular-expression queries over the live lexer patterns (generator output is one token of the right class, unbounded length)",
+    "C02": "z3 bounded language equivalence (CYK encoding of the live sly productions vs a reference grammar, token strings <= 10/12), z3 regular-expression "
+           "queries over the live lexer patterns (unbounded length), and " + CH,
+    "C03": "z3 bit-vector equivalence of the emulator's index kernel (translated from the live AST) with the tensor-product specification, and " + CH,
+    "C15": "z3 nonlinear real arithmetic over ProbabilisticSubcircuit.__init__ translated from the live AST (all real input vectors of 2/4/8 outcomes), and " + CH,
+    "C16": CH + " on symbolic strings; plus z3 regular-language queries on the lexer's token actions (token texts of unbounded length)",
+    "C09": CH + "; program shapes are enumerated, counts/indices symbolic (enumeration-equivalent over shapes)",
+    "C11": CH + "; call histories are selected by the solver from a finite menu and leaf values are symbolic (enumeration-equivalent over histories)",
+    "C12": CH + "; backend histories are selected by the solver and executed natively (enumeration-equivalent over histories)",
+    "C19": CH + "; nesting shapes are enumerated, lengths symbolic (enumeration-equivalent over shapes)",
+}
+
 NOT_BUILT = "no check registered yet: harness under construction (see DESIGN.md section 3 for the planned obligations)"
 
 
@@ -40,7 +54,7 @@ def main():
             },
             "level_note": meta.get("level_note", "trusted: CrossHair 0.0.110 + z3 5.1 (path exhaustiveness, theory solving), CPython 3.12, "
                                                  "the harness oracles in vf/harness and vf/spec; bounds in evidence.coverage.bounds; nothing outside them is claimed"),
-            "technique": meta.get("technique", "solver-based bounded symbolic execution of the real Python code (CrossHair + z3)"),
+            "technique": meta.get("technique", TECHNIQUE.get(pid, CH)),
         })
     man = {
         "version": 1,
